@@ -34,12 +34,26 @@ def vendors(tier):
 def bound_text(tier):
     return ("rulebook families %s; vendors %s; all ordered pairs (old,new) of the complete config universe per rulebook "
             "(<= %d configs); rendering round trip through %s formatter(s)"
-            % ([f for f, _ in rbgen.families(tier)], vendors(tier), knobs(tier)["cap"],
+            % ([f for f, _ in all_families(tier)], vendors(tier), knobs(tier)["cap"],
                "3" if tier == "quick" else "all 14"))
 
 
 def knobs(tier):
     return {"cap": 40 if tier == "quick" else 300}
+
+
+def extra_families():
+    from mc.ref.rb import Rule
+    return [("X1-rewrite-nesting", [
+        [Rule("a *", [Rule("c *", [Rule("e ~", rewrite=True)])], rewrite=True)],
+        [Rule("a *", [Rule("c *", [Rule("e ~", rewrite=True)], ordered=True)], rewrite=True)],
+        [Rule("a *", [Rule("c ~", rewrite=True, glob=True)], rewrite=True)],
+        [Rule("a *", [Rule("c *", [Rule("e *", rewrite=True), Rule("d")])], rewrite=True), Rule("b")],
+    ])]
+
+
+def all_families(tier):
+    return rbgen.families(tier) + extra_families()
 
 
 def setup():
@@ -48,7 +62,7 @@ def setup():
 
 def blocks(tier, seed):
     out = []
-    for fi, (name, rbs) in enumerate(rbgen.families(tier)):
+    for fi, (name, rbs) in enumerate(all_families(tier)):
         for v in vendors(tier):
             step = 6 if tier == "quick" else 3
             for off in range(0, len(rbs), step):
@@ -71,7 +85,7 @@ def restrict(level, cfg):
     return [[row, restrict(g[2], ch)] for (row, ch, g) in known(level, cfg)]
 
 
-def check_level(level, old, new, diff, path, probs, Op, under_moved=False):
+def check_level(level, old, new, diff, path, probs, Op, under_moved=False, in_rewrite=False):
     ko, kn = known(level, old), known(level, new)
     orows = {r: (ch, g) for r, ch, g in ko}
     nrows = {r: (ch, g) for r, ch, g in kn}
@@ -86,7 +100,8 @@ def check_level(level, old, new, diff, path, probs, Op, under_moved=False):
     # a %rewrite group whose subtrees are all equal disappears from the diff as a whole
     rewrite_rows_old = [(r, ch) for r, ch, g in ko if g[0].rewrite]
     rewrite_rows_new = [(r, ch) for r, ch, g in kn if g[0].rewrite]
-    rewrite_group_equal = (restrict_rows(level, rewrite_rows_old) == restrict_rows(level, rewrite_rows_new))
+    # (only the OUTERMOST %rewrite group may vanish: inside a rewritten block everything is re-emitted with the block)
+    rewrite_group_equal = (not in_rewrite) and (restrict_rows(level, rewrite_rows_old) == restrict_rows(level, rewrite_rows_new))
     for row in list(orows) + [r for r in nrows if r not in orows]:
         in_o, in_n = row in orows, row in nrows
         ent = seen.get(row)
@@ -111,7 +126,8 @@ def check_level(level, old, new, diff, path, probs, Op, under_moved=False):
                 probs.append(("wrong-op", path + (row,), "in both but op=%s" % op))
             if op == Op.UNCHANGED and restrict(sub, och) != restrict(sub, nch):
                 probs.append(("unchanged-but-differs", path + (row,), "old=%r new=%r" % (och, nch)))
-        check_level(sub, och, nch, children, path + (row,), probs, Op, under_moved or op == Op.MOVED)
+        check_level(sub, och, nch, children, path + (row,), probs, Op, under_moved or op == Op.MOVED,
+                    in_rewrite or rule.rewrite)
     # projections
     not_removed = [e[1] for e in diff if e[0] != Op.REMOVED]
     not_added = [e[1] for e in diff if e[0] != Op.ADDED]
@@ -300,7 +316,7 @@ def op_kinds(diff, acc, depth=0):
 
 
 def run_block(block, ctx):
-    fams = rbgen.families(ctx.tier)
+    fams = all_families(ctx.tier)
     name, rbs = fams[block["family"]]
     vendor = block["vendor"]
     for rules in rbs[block["from"]:block["to"]]:
